@@ -9,7 +9,7 @@ use temporal_rs::options::{Disambiguation, DisplayCalendar, DisplayOffset, Displ
 use temporal_rs::tzdb::FsTzdbProvider;
 use temporal_rs::{Calendar, Duration, Instant, PlainDateTime, TimeZone, ZonedDateTime};
 
-pub const ACTIONS: [&str; 11] = [
+pub const ACTIONS: [&str; 12] = [
     "ok: New_York getter",
     "ok: London add",
     "ok: Tokyo Instant::to_ixdtf_string",
@@ -21,6 +21,7 @@ pub const ACTIONS: [&str; 11] = [
     "PANIC while holding the provider lock (main thread)",
     "PANIC while holding the provider lock (spawned thread, joined)",
     "ok: London getter from a spawned thread",
+    "PANIC while holding the provider lock while another thread is blocked on it (the waiter's call is judged)",
 ];
 
 fn zdt(ns: i128, zone: &str) -> ZonedDateTime {
@@ -91,6 +92,26 @@ fn act(a: usize, shared: bool) -> String {
                 format!("{:?}", zdt(t, "Europe/London").day_with_provider(&p).map_err(|e| (e.kind(), e.message().to_string())))
             }
         }
+        11 => {
+            if shared {
+                // thread A takes the lock, lets B start (B blocks on the lock), then panics while holding it
+                let (tx, rx) = std::sync::mpsc::channel::<()>();
+                let b = std::thread::spawn(move || {
+                    let _ = rx.recv();
+                    format!("{:?}", zdt(1_636_263_000_001_002_003, "Europe/London").day().map_err(|e| (e.kind(), e.message().to_string())))
+                });
+                let a = std::thread::spawn(move || {
+                    temporal_rs::verif_hooks::panic_while_holding_provider_lock_with(|| {
+                        let _ = tx.send(());
+                        std::thread::sleep(std::time::Duration::from_millis(120));
+                    })
+                });
+                let _ = a.join();
+                b.join().unwrap_or_else(|_| "waiter panicked".into())
+            } else {
+                format!("{:?}", zdt(t, "Europe/London").day_with_provider(&p).map_err(|e| (e.kind(), e.message().to_string())))
+            }
+        }
         _ => unreachable!(),
     }
 }
@@ -124,7 +145,7 @@ impl Space for Histories {
     fn eval(&self, i: u64, out: &mut Out) {
         let h = unrank(i, &vec![ACTIONS.len() as u64; self.depth as usize]);
         let hs: Vec<String> = h.iter().map(|x| x.to_string()).collect();
-        let has_fault = h.iter().any(|a| *a >= 5 && *a <= 9);
+        let has_fault = h.iter().any(|a| (*a >= 5 && *a <= 9) || *a == 11);
         if has_fault {
             out.nontrivial += 1;
         }
@@ -136,7 +157,7 @@ impl Space for Histories {
                 ("history", format!("{:?}", h)),
                 ("step", k.to_string()),
                 ("action", ACTIONS[h[k]].to_string()),
-                ("after_panic", h[..k].iter().any(|a| *a == 8 || *a == 9).to_string()),
+                ("after_panic", h[..k].iter().any(|a| *a == 8 || *a == 9 || *a == 11).to_string()),
                 ("after_error", h[..k].iter().any(|a| (5..=7).contains(a)).to_string()),
                 ("earlier_calls", format!("{before:?}")),
             ]
@@ -161,9 +182,9 @@ impl Space for Histories {
         for (k, s) in steps.iter().enumerate() {
             let same = s["same"].as_bool().unwrap_or(false);
             out.lockstep("call returns what it returns alone", &Ok(s["want"].as_str().unwrap_or("").to_string()), &Oc::Ok(s["got"].as_str().unwrap_or("").to_string()), |a, b| a == b && same, || attrs(k));
-            state.0 |= h[k] == 8 || h[k] == 9;
+            state.0 |= h[k] == 8 || h[k] == 9 || h[k] == 11;
             state.1.push(h[k]);
-            out.state(&(state.0, { let mut z: Vec<usize> = state.1.iter().filter(|a| **a < 5 || **a == 10).map(|a| [0, 1, 2, 0, 3, 9, 9, 9, 9, 9, 1][*a]).collect(); z.sort(); z.dedup(); z }));
+            out.state(&(state.0, { let mut z: Vec<usize> = state.1.iter().filter(|a| **a < 5 || **a >= 10).map(|a| [0, 1, 2, 0, 3, 9, 9, 9, 9, 9, 1, 1][*a]).collect(); z.sort(); z.dedup(); z }));
         }
         if out.want_sample() && has_fault && h.len() >= 2 && h[0] == 8 {
             out.sample(json!({"history": h.iter().map(|a| ACTIONS[*a]).collect::<Vec<_>>()}));
@@ -218,7 +239,7 @@ pub fn run(env: &Env) -> i32 {
     let mut rep = Report::new(
         env,
         "model_checking",
-        "schedules: every interleaving of the real convenience wrappers at their synchronisation points under loom (2-4 threads, 1-3 calls each, zones forced to collide and to differ, an erroring call), up to the stated preemption bounds; histories: every sequence of 11 actions (ok calls on 4 zones from the main or a spawned thread, 3 erroring calls, a panic while holding the provider lock from the main or a spawned thread) up to depth 3 (quick) / 4 (thorough), each in its own process; non-trivial = histories containing a failing or panicking call",
+        "schedules: every interleaving of the real convenience wrappers at their synchronisation points under loom (2-4 threads, 1-3 calls each, zones forced to collide and to differ, an erroring call), up to the stated preemption bounds; histories: every sequence of 12 actions (ok calls on 4 zones from the main or a spawned thread, 3 erroring calls, a panic while holding the provider lock from the main or a spawned thread, and such a panic while another thread is parked on the lock) up to depth 3 (quick) / 4 (thorough), each in its own process; non-trivial = histories containing a failing or panicking call",
     );
     rep.assumptions.push("loom explores sequentially consistent interleavings at loom synchronisation points; the wrappers use one mutex and a lazily initialised static, nothing weaker. The sequential reference is the core method with a fresh FsTzdbProvider".into());
     let loom_json = std::env::var("TMC_LOOM_JSON").ok().and_then(|p| std::fs::read_to_string(p).ok()).and_then(|t| serde_json::from_str::<Value>(&t).ok());
